@@ -28,6 +28,19 @@ def main():
     try:
         viols = mod.run(tier, seed, ev) or []
     except V.HarnessError as e:
+        import re
+        if re.search(r"==\d+==ABORTING|SUMMARY: \w+Sanitizer|ERROR: \w+Sanitizer", str(e)):
+            # not a failure of the machinery: a run of the code under test died in a sanitizer report at a place where the check only
+            # expected results (a reference run, the listing of members, ...).  An execution that dies returns nothing, so the property
+            # does not hold on it; say so rather than "no verdict".
+            d = V.replay_dir(pid, "died")
+            open(os.path.join(d, "why.txt"), "w").write(str(e) + "\n\n" + traceback.format_exc())
+            ev.violations = 1
+            ev.set("died_in_sanitizer_report", 1)
+            ev.write()
+            V.violation(pid, d, "a run of the code under test died: " + str(e)[-600:])
+            print("%s %s: VIOLATED in %.1fs" % (pid, tier, time.time() - ev.t0))
+            return 1
         print("HARNESS-FAILURE %s: %s" % (pid, e))
         traceback.print_exc()
         return 2
